@@ -29,6 +29,9 @@ from c2lean import Unsupported
 
 ELEM_TYPES = {"double": "D", "float": "F", "int": "I", "int64_t": "L", "int16_t": "W", "int8_t": "B", "char": "C"}
 INT_TYPES = {"int", "int64_t", "long", "long long", "int16_t", "int8_t", "char", "size_t", "unsigned long"}
+# scalar functions of easel.c called by the vector routines: C name -> (Lean name, class the generated caller needs); hand model in
+# lean/EaselModel/Vec/Model.lean, compared bit-exactly with the C function through the harness op `cmpold`
+EXTERNAL = {"esl_DCompare_old": ("compareOldStatus", "VCmp"), "esl_FCompare_old": ("compareOldStatus", "VCmp")}
 LEAN_KW = c2lean.LEAN_KEYWORDS | {"rd", "wr", "loop", "s", "pure", "max", "min"}
 
 
@@ -63,6 +66,7 @@ class Fn:
         self.elemtype = None
         self.written = []       # arrays written (lean names, in first-write order)
         self.monadic = False
+        self.vcmp = False       # calls esl_{D,F}Compare_old (`VCmp`)
         self.wrap = False       # uses gcc's wrap-around / truncation semantics (`CWrap`): the `return x1 - x2` comparator idiom
         self.stats = {"n_reads": 0, "n_writes": 0, "n_loops": 0, "n_ops": 0, "n_calls": 0}
 
@@ -325,6 +329,15 @@ class Fn:
                 if pre:
                     raise Unsupported("%s: short-circuit operand with memory access" % self.where(n))
                 return "(%s %s %s)" % (a, op, b)
+            if op in ("==", "!=") and unwrap(n["inner"][0])["kind"] == "CallExpr" and self.callee(unwrap(n["inner"][0])) in EXTERNAL \
+                    and self.int_literal(n["inner"][1]) is not None:
+                c = unwrap(n["inner"][0])
+                lean, cls = EXTERNAL[self.callee(c)]
+                args = [self.elem(a, out) for a in c["inner"][1:]]
+                if len(args) != 3:
+                    raise Unsupported("%s: argument count of %s" % (self.where(n), self.callee(c)))
+                self.vcmp = True; self.stats["n_calls"] += 1
+                return "(decide (%s %s %s %d))" % (lean, " ".join(args), "=" if op == "==" else "≠", self.int_literal(n["inner"][1]))
             if op in ("<", ">", "<=", ">=", "==", "!="):
                 if self.is_idx_expr(n["inner"][0]) and self.is_idx_expr(n["inner"][1]):
                     a, b = self.idx(n["inner"][0]), self.idx(n["inner"][1])
@@ -461,6 +474,7 @@ class Fn:
             raise Unsupported("%s: call of %s (not translated)" % (self.where(n), fn))
         sig = self.known[fn]
         self.wrap = self.wrap or getattr(sig, "wrap", False)
+        self.vcmp = self.vcmp or getattr(sig, "vcmp", False)
         args, wr = [], []
         for a, (pn, pk) in zip(n["inner"][1:], sig.params):
             if pk == "arr":
@@ -651,7 +665,9 @@ class Fn:
                     r = None
                 else:
                     e = s["inner"][0]
-                    if self.ret == "idx" and not self.is_idx_expr(e) and self.int_literal(e) is None and not self.returns_index_expr(e):
+                    if self.ret == "idx" and unwrap(e)["kind"] == "CallExpr" and self.callee(unwrap(e)) in self.known:
+                        r = self.call(unwrap(e), pre, want_ret=True)
+                    elif self.ret == "idx" and not self.is_idx_expr(e) and self.int_literal(e) is None and not self.returns_index_expr(e):
                         r = "(%s : Int)" % self.wrap_int(e)
                     elif self.ret == "idx":
                         r = "(%s : Int)" % self.idx(e)
@@ -661,6 +677,46 @@ class Fn:
                         r = self.elem(e, pre)
                 lines.extend(pad + x for x in pre)
                 lines.append(pad + "return! " + self.result(r))
+                return lines
+            if k == "ForStmt" and self.has_return(s):
+                init, _, cnd, inc, body = s["inner"]
+                bs = self.flatten(body)
+                if not (len(bs) == 1 and bs[0]["kind"] == "IfStmt" and len(bs[0]["inner"]) == 2 and not bs[0].get("hasInit") and not bs[0].get("hasVar")):
+                    raise Unsupported("%s: a loop may only leave through `for (..) if (c) return e;`" % self.where(s))
+                th = self.flatten(bs[0]["inner"][1])
+                if not (len(th) == 1 and th[0]["kind"] == "ReturnStmt" and th[0].get("inner") and self.ret == "idx" and self.int_literal(th[0]["inner"][0]) is not None):
+                    raise Unsupported("%s: the early return of a search loop must return an integer constant" % self.where(s))
+                if not (init and init.get("kind") == "BinaryOperator" and init["opcode"] == "=" and unwrap(init["inner"][0])["kind"] == "DeclRefExpr"):
+                    raise Unsupported("%s: for-init" % self.where(s))
+                iv = unwrap(init["inner"][0])["referencedDecl"]["name"]
+                if self.kind.get(iv) != "idx":
+                    raise Unsupported("%s: loop counter %s" % (self.where(s), iv))
+                lo = self.idx(init["inner"][1])
+                c = unwrap(cnd) if cnd and cnd.get("kind") else None
+                if not (c and c["kind"] == "BinaryOperator" and c["opcode"] == "<" and unwrap(c["inner"][0]).get("referencedDecl", {}).get("name") == iv):
+                    raise Unsupported("%s: loop condition is not `%s < bound`" % (self.where(s), iv))
+                if not (inc and inc.get("kind") == "UnaryOperator" and inc["opcode"] == "++" and unwrap(inc["inner"][0])["referencedDecl"]["name"] == iv):
+                    raise Unsupported("%s: loop increment is not `%s++`" % (self.where(s), iv))
+                hi = self.idx(c["inner"][1])
+                later = set()
+                for x in stmts[j + 1:]:
+                    later.update(self.vars_in(x))
+                if iv in later:
+                    raise Unsupported("%s: counter of a search loop read after the loop" % self.where(s))
+                saved = set(self.bound)
+                self.bound.add(iv)
+                pre = []
+                cc = self.cond(bs[0]["inner"][0], pre)
+                self.bound = saved
+                fnd = self.fresh()
+                lines.append(pad + "let %s ← loopAny %s %s fun %s => do" % (fnd, lo, hi, self.ident(iv)))
+                lines.extend(pad + "    " + x for x in pre + ["pure %s" % cc])
+                self.monadic = True; self.stats["n_loops"] += 1
+                lines.append(pad + "if %s then" % fnd)
+                lines.extend(self.block(th, ind + 1))
+                self.bound = set(saved)
+                lines.append(pad + "else")
+                lines.extend(self.block(stmts[j + 1:], ind + 1))
                 return lines
             if k == "IfStmt" and self.has_return(s):
                 th = self.flatten(s["inner"][1])
@@ -740,15 +796,19 @@ class Fn:
         tys = (["Int" if self.ret == "idx" else "α"] if self.ret else []) + ["Array α"] * len(order)
         rty = " × ".join(tys)
         if self.monadic:
-            head = "def %s %s%s : Option (%s) := do" % (self.name, "[CWrap α] " if self.wrap else "", " ".join(params), rty)
+            head = "def %s %s%s : Option (%s) := do" % (self.name, self.binders(), " ".join(params), rty)
         else:
-            head = "def %s %s%s : %s :=" % (self.name, "[CWrap α] " if self.wrap else "", " ".join(params), rty)
+            head = "def %s %s%s : %s :=" % (self.name, self.binders(), " ".join(params), rty)
         line = self.f.get("loc", {}).get("line", "?")
         doc = "/-- `%s` (%s:%s)%s -/" % (self.cname, self.cfile, line, (" with " + ", ".join("%s = %s" % kv for kv in self.alias.items())) if self.alias else "")
         sig = Sig(self.name, sig_params, order, self.ret)
         sig.monadic = self.monadic
         sig.wrap = self.wrap
+        sig.vcmp = self.vcmp
         return doc + "\n" + head + "\n" + "\n".join(text_lines) + "\n", sig
+
+    def binders(self):
+        return ("[CWrap α] " if self.wrap else "") + ("[VCmp α] " if self.vcmp else "")
 
     def result(self, r):
         return r or ""
@@ -762,7 +822,11 @@ class Fn:
         res = []
         def f(x):
             if x.get("kind") == "ReturnStmt" and x.get("inner"):
-                res.append(self.is_idx_expr(x["inner"][0]))
+                e = unwrap(x["inner"][0])
+                if e["kind"] == "CallExpr" and self.callee(e) in self.known:
+                    res.append(self.known[self.callee(e)].ret == "idx")
+                else:
+                    res.append(self.is_idx_expr(x["inner"][0]))
         self.walk(body, f)
         return bool(res) and all(res)
 
@@ -780,8 +844,8 @@ variable {α : Type} [CElem α]
 """
 
 VEC_TYPES = "DFIL"
-VEC_ROUTINES = ["Set", "Scale", "Increment", "Add", "AddScaled", "Sum", "Dot", "Max", "Min", "ArgMax", "ArgMin", "Copy", "Swap", "Reverse"]
-MAT_ROUTINES = {"Set": "DFI", "Scale": "DFI", "Copy": "DFIWB", "Max": "DFI"}
+VEC_ROUTINES = ["Set", "Scale", "Increment", "Add", "AddScaled", "Sum", "Dot", "Max", "Min", "ArgMax", "ArgMin", "Copy", "Swap", "Reverse", "Compare"]
+MAT_ROUTINES = {"Set": "DFI", "Scale": "DFI", "Copy": "DFIWB", "Max": "DFI", "Compare": "DFI"}
 
 
 def plan():
@@ -815,12 +879,14 @@ def generate(src_dir, the_plan=None):
             if not alias:
                 known[nm] = sig
             chunks.append(text)
-            infos.append({"name": t.name, "elem": t.elemtype, "wrap": t.wrap, "params": sig.params, "writes": sig.writes, "ret": sig.ret, "monadic": t.monadic, **t.stats})
+            infos.append({"name": t.name, "elem": t.elemtype, "wrap": t.wrap, "vcmp": t.vcmp, "params": sig.params, "writes": sig.writes, "ret": sig.ret, "monadic": t.monadic, **t.stats})
     disp = ["/-- name → translated function; arguments grouped by kind in parameter order (arrays, indices, elements);",
             "    outer `none` = unknown name / wrong arity, inner `none` = the routine faults -/",
             "def dispatch %s(name : String) (A : List (Array α)) (I : List Int) (E : List α) : Option (Option (Res α)) :=" % ("[CWrap α] " if any(i["wrap"] for i in infos) else ""),
             "  match name, A, I, E with"]
     for inf in infos:
+        if inf["vcmp"]:
+            continue                     # needs the floating-point class `VCmp`: the driver calls it directly at Float / Float32
         ps = inf["params"]
         pat = lambda k: "[%s]" % ", ".join(p for p, kk in ps if kk == k)
         call = "%s %s" % (inf["name"], " ".join(p for p, kk in ps))
